@@ -7,7 +7,8 @@ import Starcal.Ethiopian2
 import Starcal.Hijri
 import Starcal.Jalali2
 import Starcal.Jal2820b
-import Starcal.HijriT2
+import Starcal.HijriT3
+import Starcal.Gen.HijriTable
 /-! # C01 — calendar conversion is a bijection (round trips both ways)
 
 One theorem per configuration, each about the record the driver executes. -/
@@ -71,5 +72,34 @@ theorem C01_jalali_2820 : Bijective calJal2820 where
   date_roundtrip t h := by
     have := Jalali.jdTo2_toJd2 ⟨t.1, t.2.1, t.2.2⟩ h.2
     simp only [calJal2820, toJdT]; rw [this]
+
+/-! ## hijri in month-table mode (partial: two open known findings at the table's seams) -/
+
+/-- the month table the model uses is the table of the source (regenerated on every run) -/
+theorem C01_hijri_table_is_source : Gen.hijriLens = HijriT.lens := by rfl
+
+theorem C01_hijri_table_bounds_are_source :
+    Gen.hijriStartJd = HijriT.startJd ∧ Gen.hijriEndJd = HijriT.endJd ∧ Gen.hijriStartDate = (1426, 2, 1) := by
+  refine ⟨rfl, ?_, rfl⟩
+  rw [HijriT.endJd_val]; rfl
+
+/-- **every day number outside the 29-day start seam round-trips** (far from the table by the
+    arithmetic theorem, inside the window by the general table lemmas, the two seam zones day by day
+    in the kernel) -/
+theorem C01_hijri_table_partial (jd : Int) (h : jd < 2453442 ∨ 2453470 < jd) :
+    toJdT calHijT (calHijT.jdTo jd) = jd := by
+  have e := HijriT.hijri_table_jd_roundtrip_partial jd h
+  generalize hd : HijriT.jdToT jd = d at e
+  simp only [calHijT, toJdT, hd]
+  rcases d with ⟨y, m, dd⟩
+  exact e
+
+/-- the full statement is false of the code: exactly the 29 days 2453442 … 2453470 fail (open
+    known finding KF-hijri-table-start-seam; the existing tests pin both halves) -/
+theorem C01_hijri_table_start_seam_witness :
+    (HijriT.rangeI 2453400 100).filter (fun jd => HijriT.toJdT (HijriT.jdToT jd) != jd) = HijriT.rangeI 2453442 29 :=
+  HijriT.start_seam
+
+example : calHijT.jdTo 2453442 = (1426, 2, 1) ∧ calHijT.toJd 1426 2 1 = 2453443 := by decide +kernel
 
 end Starcal.Props
